@@ -263,6 +263,22 @@ def oracle(case, out):
         if len(o) != 3 * L or o[:L] != o[L:2 * L] or o[:L] != o[2 * L:]:
             return "mirrored sequence is not three equal copies"
         return None
+    if k == "circeval" and "skipped" not in o and len(case) > 3 and case[1][0] == "AvoidChanges":
+        # independent count: the circular evaluation passes iff the protected positions edited since the
+        # problem was built are within the allowance
+        kwd = dict(case[1][1])
+        seq, ed = case[2], case[3]
+        if kwd.get("indices") is not None:
+            pos = list(kwd["indices"])
+        else:
+            a_, b_ = (0, len(seq)) if kwd.get("location") is None else kwd["location"][:2]
+            pos = list(range(a_, b_))
+        edits = sum(1 for i in pos if seq[i] != ed[i])
+        want = edits <= kwd.get("max_edits", 0)
+        if bool(o["all_pass"]) != want:
+            return ("all_constraints_pass() of the circular problem is %s although %d protected position(s) were edited "
+                    "(allowance %d)" % (o["all_pass"], edits, kwd.get("max_edits", 0)))
+        return None
     if k == "circany":
         if o.get("moved"):
             return "evaluating the constraints/objectives of a circular problem changed its sequence (%s -> %s)" % (o["cur"], o["now"])
